@@ -154,7 +154,8 @@ def real(case):
                          [Dimension(name="tdc%d" % k, type="time", granularity=case.get("tgran", "day"), sql="(TIMESTAMP '2024-01-15 00:00:00' + %s%s * INTERVAL 20 DAY)" % (q, sg.COLS[k]))
                           for k in sorted({e[2] for e in case["dims"] if e[0] == "tdim"})],
               metrics=mets, **src)
-    L.add_model(m)
+    from harness import inherit
+    L.add_model(inherit.maybe(m, sorted((k_, repr(v_)) for k_, v_ in case.items() if k_ != "rows")))      # one case in four: the same definitions obtained through `extends`
     nm = names(case)
     kw = dict(metrics=["t.m%d" % j for j in range(len(case["mets"]))], dimensions=["t." + dim_name(i, e) for i, e in enumerate(case["dims"])],
               filters=[user_text(f, "t.") for f in case["filters"]], ungrouped=case["ungrouped"])
